@@ -426,7 +426,7 @@ class World:
                     try:
                         setattr(target, a["name"], a.get("value", 1))
                     except Exception as e:
-                        st["exc"] = type(e).__name__
+                        st["exc"] = "AttributeError" if isinstance(e, AttributeError) else type(e).__name__
                 elif a["op"] == "mutate_arg":
                     lst = args.get(a["name"])
                     st["arg_type"] = type(lst).__name__
